@@ -760,6 +760,61 @@ fn same_language_session(t: &mut Trace, rng: &mut Rng, maxlen: usize) {
     s.finish();
 }
 
+/// long literals (35..95 characters): closures of several dozen derivatives, with history — a
+/// derivative of e is compiled first, then e is compiled with bounds around the exact closure size
+fn long_literal_session(t: &mut Trace, rng: &mut Rng) {
+    let mut s = Session::new(t, vec![97, 98, 32], 2);
+    let id = Session::id;
+    let n = rng.range(35, 95) as usize;
+    let text: Vec<u32> = (0..n).map(|_| *rng.pick(&[97u32, 98, 99, 100, 101, 32, 111, 116])).collect();
+    let t2 = text.clone();
+    let lit = s.cons(format!("re str {}", p_nats(&text)), 8, move |m| m.str(&SmtString::from(&t2[..]))).unwrap();
+    let e = match rng.below(3) {
+        0 => s.cons(format!("re star {}", id(lit)), 9, |m| m.star(lit)).unwrap(),
+        1 => {
+            let pre = s.cons("re str [97,98,99,47]".into(), 5, |m| m.str(&SmtString::from("abc/"))).unwrap();
+            s.cons(format!("re concat {} {}", id(pre), id(lit)), 12, |m| m.concat(pre, lit)).unwrap()
+        }
+        _ => lit,
+    };
+    let ie = id(e);
+    let r = guarded_m(&mut s.m, |m| {
+        let v: Vec<String> = m.iter_derivatives(e).map(|x| x.verif_id().to_string()).collect();
+        format!("[{}]", v.join(","))
+    });
+    let k = r.matches(',').count() + 1;
+    s.t.count(&format!("long_literal_closure_bucket={}", k / 16 * 16));
+    s.rec(format!("re iter_derivs {}", ie), r, true);
+    // history: compile a derivative of e first
+    let c0 = text[0];
+    let d = s.m.char_derivative(e, c0);
+    s.rec(format!("re char_deriv {} {}", ie, c0), id(d), true);
+    let r = guarded_m(&mut s.m, |m| m.compile(d).num_states().to_string());
+    s.rec(format!("re compile_size {}", id(d)), r, true);
+    if rng.chance(1, 2) {
+        let r = guarded_m(&mut s.m, |m| m.compile(lit).num_states().to_string());
+        s.rec(format!("re compile_size {}", id(lit)), r, true);
+    }
+    for nb in [k.saturating_sub(1), k, k + 1, k + 7] {
+        let r = guarded_m(&mut s.m, |m| match m.try_compile(e, nb) {
+            None => "none".into(),
+            Some(a) => format!("some:{}", a.num_states()),
+        });
+        s.rec(format!("re try_compile_size {} {}", ie, nb), r, true);
+    }
+    let r = guarded_m(&mut s.m, |m| crate::fam_aut::aut_str(&m.compile(e)));
+    s.rec(format!("re compile {}", ie), r, true);
+    let r = guarded_m(&mut s.m, |m| p_bool(m.is_empty_re(e)));
+    s.rec(format!("re is_empty_re {}", ie), r, true);
+    let r = guarded_m(&mut s.m, |m| match m.get_string(e) {
+        None => "none".into(),
+        Some(w) => format!("some:{}", p_nats(w.as_ref())),
+    });
+    s.rec(format!("re get_string {}", ie), r, true);
+    member_ops(&mut s, e, &[text.clone(), text[..n - 1].to_vec()]);
+    s.finish();
+}
+
 /// wide n-ary unions / intersections (9..24 operands with pairwise different class boundaries)
 fn wide_session(t: &mut Trace, rng: &mut Rng, maxlen: usize) {
     let k = rng.range(9, 24) as usize;
@@ -1337,6 +1392,10 @@ pub fn run(t: &mut Trace, rng: &mut Rng, thorough: bool) {
     let sl = if thorough { 100 } else { 12 };
     for _ in 0..sl {
         same_language_session(t, rng, 3);
+    }
+    let ll = if thorough { 60 } else { 8 };
+    for _ in 0..ll {
+        long_literal_session(t, rng);
     }
     let wd = if thorough { 60 } else { 8 };
     for _ in 0..wd {
